@@ -7,11 +7,12 @@ sys.path.insert(0, os.path.join(os.path.dirname(os.path.dirname(os.path.abspath(
 
 
 def for_property(pid, tier):
-    if tier != 'thorough' and not os.environ.get('VERIF_STANDINS'):
+    if os.environ.get('VERIF_NO_STANDINS'):
         return None
     try:
         import search
-    except Exception:
+    except Exception as e:
+        print('NOTE: bounded stand-ins unavailable (%r); deductive checks only' % (e,))
         return None
     fns = []
     for g in search.STANDINS.get(pid, []):
